@@ -1,13 +1,35 @@
 #!/usr/bin/env python3
-"""Development aid: print the markdown table of /verif/seeded/*/meta.json (for DESIGN.md section 10)."""
-import glob, json
-rows = []
+"""Development aid: (re)write /verif/seeded/INDEX.md from /verif/seeded/*/meta.json and print the compact
+table used in DESIGN.md section 10."""
+import glob, json, sys
+rows, full = [], []
+n = caught_own = caught_other = missed = 0
 for f in sorted(glob.glob("/verif/seeded/*/meta.json")):
     m = json.load(open(f))
     det = m.get("detected_by", {})
-    caught = "; ".join(f"{k} ({len(v['signatures'])} sig, e.g. `{v['signatures'][0].split('/', 1)[1][:60]}`)" if v.get("signatures") else k for k, v in det.items())
-    missed = ", ".join(m.get("missed_by", []))
-    rows.append(f"| `{m['id']}` | {m['breaks_property']} | {m['needs_to_manifest'][:150]} | {caught or '—'} | {missed or '—'} |")
-print("| seeded change | property | needs, to manifest | caught by (quick tier) | not caught by |")
-print("|---|---|---|---|---|")
+    own = m["breaks_property"]
+    n += 1
+    if own in det:
+        caught_own += 1
+    elif det:
+        caught_other += 1
+    else:
+        missed += 1
+    sigs = lambda v: (v["signatures"][0].split("/", 1)[1][:70] if v.get("signatures") else "")
+    caught = "; ".join(f"{k} `{sigs(v)}`" for k, v in det.items())
+    rows.append(f"| `{m['id']}` | {', '.join(det) or '—'} | {', '.join(m.get('missed_by', [])) or '—'} |")
+    full.append(f"| `{m['id']}` | {own} | {m['needs_to_manifest'][:220]} | {caught or '—'} | {', '.join(m.get('missed_by', [])) or '—'} |")
+hdr = f"{n} seeded changes: {caught_own} caught by the check of the property they were written against, {caught_other} only by another property's check, {missed} by none.\n"
+open("/verif/seeded/INDEX.md", "w").write(
+    "# Seeded changes\n\n" + hdr + "\nEach directory holds `patch.diff` (apply with `git -C /repo apply`), the author's demonstration, its README and `meta.json` "
+    "(what was confirmed, which checks were run, what they reported).\n\n"
+    "| seeded change | written against | needs, to manifest | caught by (quick tier, first signature) | run but not caught by |\n|---|---|---|---|---|\n" + "\n".join(full) + "\n")
+print(hdr)
+print("| seeded change | caught by | run, not caught by |\n|---|---|---|")
 print("\n".join(rows))
+
+import re
+d = open("/verif/DESIGN.md").read()
+blk = "<!-- seeded-table-begin -->\n" + hdr + "\n| seeded change | caught by | run, not caught by |\n|---|---|---|\n" + "\n".join(rows) + "\n<!-- seeded-table-end -->"
+d = re.sub(r"<!-- seeded-table-begin -->.*?<!-- seeded-table-end -->", lambda m: blk, d, flags=re.S)
+open("/verif/DESIGN.md", "w").write(d)
